@@ -69,8 +69,12 @@ def run(ctx):
     sp = b['sp']
     draws = ev.events(lambda e: e.op == 'draw')
     r = None
-    m_el = re.match(r'.*<\s*([A-Za-z0-9_:]+)\s*>\s*$', b.get('self_ty') or '')
-    elty = m_el.group(1) if m_el else None          # the distribution's element type as the impl names it
+    # the distribution's element type as the impl block that OWNS the draw names it (generic parameters are named per impl block)
+    def self_arg0(path):
+        ob = [x for x in ctx.facts.bodies if strip_generics(x['path']) == path and x.get('self_ty')]
+        m_ = re.match(r'.*<\s*([A-Za-z0-9_:]+)\s*>\s*$', ob[0]['self_ty']) if ob else None
+        return m_.group(1) if m_ else None
+    elty = (self_arg0(draws[0].owner) if draws and draws[0].owner else None) or self_arg0(strip_generics(b['path']))
     drawn_ty = (getattr(draws[0], 'gargs', None) or [None, None])[1] if draws else None
     if len(draws) == 1 and draws[0].draw_kind == 'rng_random' and root_place(draws[0].args[0]) == 'self.rng' and not draws[0].loops and elty is not None and drawn_ty == elty:
         r = draws[0].res
